@@ -10,7 +10,12 @@ HOOKS = {
     'add_only': True,
 }
 
+T_KANI = 'solver-based bounded model checking of the compiled real code with Kani/CBMC (kani::any() inputs, SAT back end), counterexamples via concrete playback replayed natively'
+N_KANI = 'trusted: Kani 0.68/CBMC 6.11, its models of primitive any(); harness crate /verif/kani with path dependencies on /repo (rebuilt every run); one harness per concrete instantiation, listed in the evidence'
+
 ENGINES = [
+    {'name': 'E1-kani', 'path': 'kani/', 'serves_properties': ['C07', 'C11'],
+     'kind_free_text': 'Kani proof harnesses over the real liquid-core code for scalar-level units (symbolic i64/f64/bool inputs, all bit patterns), unwinding assertions on, cover! vacuity witnesses'},
     {'name': 'E2-mirsym', 'path': 'mirsym/', 'serves_properties': ['C04', 'C05', 'C10', 'C15', 'C18'],
      'kind_free_text': 'MIR symbolic executor (Python + z3): rustc --emit=mir of /repo working tree on every run, path enumeration with symbolic leaves, listed library models, native replay of counterexamples'},
 ]
@@ -26,6 +31,10 @@ CHECKS = {
             'text': 'Real MIR of every writing render_to (Text, RawT, FilterChain, core Template, Conditional, Case, Increment, Decrement, Cycle, Capture, IfChanged, For, TableRow) executed with a sink whose K-th write fails for a solver-chosen K: Err returned, no later write, accepted log is a prefix of a fault-free run with the same choices, no panic.'},
     'C04': {'engine': 'E2-mirsym', 'technique': T_MIR, 'note': N_MIR + '; find/try_find uninterpreted (result names the map that answered); tag bodies abstract',
             'text': 'Real MIR of RuntimeBuilder::build and liquid::Template::render_to (layer order, fresh layers, caller data by reference), of get/try_get/set_global/set_index on that concrete four-layer stack plus 0..2 scopes for every combination of layers defining a name (innermost wins, assignments land in the right layer, caller data untouched), and of Assign/Capture/Increment/Decrement::render_to against an abstract runtime.'},
+    'C11': {'engine': 'E1-kani', 'technique': T_KANI, 'note': N_KANI,
+            'text': 'Kani proves, for every pair of i64/f64 (all bit patterns incl. NaN, +-0, infinities)/bool scalars: == symmetric, != its negation, </> and <=/>= duals, partial_cmp antisymmetric and Equal exactly when ==, <= is < or ==, equal values never strictly ordered, reflexivity except NaN, int/float equality for |x|<=2^53, and that Value/ValueCow comparisons delegate to the same relation; nil symmetric.'},
+    'C07': {'engine': 'E1-kani', 'technique': T_KANI, 'note': N_KANI,
+            'text': 'Kani proves <Vec<i64> as ArrayView>::{get, contains_key, size, first, last} positional for len<=5 and EVERY i64 index (negatives from the end, everything else absent).'},
 }
 
 NOT_BUILT = 'not claimed yet: obligations for this property are not built in this revision (see DESIGN.md §4)'
@@ -33,5 +42,5 @@ NOT_APPLICABLE = {
     'C09': 'quantifies over histories of whole parse+render calls; needs the pest parser and HashMap-backed registers inside the solver (measured out of reach) or a frame condition that is a typing fact, not a solver query (DESIGN.md §5)',
     'C20': 'quantifies over thread schedules; Kani does not support concurrency and the MIR executor has no interleaving semantics (DESIGN.md §5)',
 }
-for _p in ['C01', 'C02', 'C03', 'C06', 'C07', 'C08', 'C11', 'C12', 'C13', 'C14', 'C16', 'C17', 'C19']:
+for _p in ['C01', 'C02', 'C03', 'C06', 'C08', 'C12', 'C13', 'C14', 'C16', 'C17', 'C19']:
     NOT_APPLICABLE.setdefault(_p, NOT_BUILT)
